@@ -1647,12 +1647,20 @@ theorem discard_exc_ok {s : State} {x : Option Nat} {e : Exc} (h : (discard s x)
 theorem markReturned_mono (s : State) (r : Nat) : Mono s (markReturned s r) :=
   Mono.of_steps (setResp_steps [] s r (fun x => { x with returned := true }) (fun _ => rfl))
 
-/-- the state after a `urlopen` call entered in state `s0` satisfies the invariant, what the call raised is a
-urllib3 exception or an interrupt, and the responses that existed before (`index < n`) hold no more than before -/
-def Good (n : Nat) (s0 : State) (x : State × Result) : Prop :=
-  Inv x.1 ∧ (∀ e, x.2 = .raised e → okCls e.cls = true) ∧ KeepN n s0 x.1
+/-- what a `urlopen` call may raise: a urllib3 exception, an interrupt, or — when the caller passed a per-request
+timeout that `Timeout` rejects (`bt`) — the `ValueError` for that argument -/
+def okClsB (bt : Bool) (c : Cls) : Bool := okCls c || (bt && c == Gen.cValueError)
 
-theorem Good.from {n : Nat} {s t : State} {x : State × Result} (k : KeepN n s t) (g : Good n t x) : Good n s x :=
+theorem okClsB_of {bt : Bool} {c : Cls} (h : okCls c = true) : okClsB bt c = true := by
+  simp [okClsB, h]
+
+/-- the state after a `urlopen` call entered in state `s0` satisfies the invariant, what the call raised is a
+urllib3 exception or an interrupt (or the `ValueError` for an invalid `timeout` argument, `bt`), and the responses
+that existed before (`index < n`) hold no more than before -/
+def Good (n : Nat) (bt : Bool) (s0 : State) (x : State × Result) : Prop :=
+  Inv x.1 ∧ (∀ e, x.2 = .raised e → okClsB bt e.cls = true) ∧ KeepN n s0 x.1
+
+theorem Good.from {n : Nat} {bt : Bool} {s t : State} {x : State × Result} (k : KeepN n s t) (g : Good n bt t x) : Good n bt s x :=
   ⟨g.1, g.2.1, k.trans g.2.2⟩
 
 theorem getConn_error_cls {s s' : State} {e : Exc} (hg : getConn s = (s', .error e)) :
@@ -1666,16 +1674,35 @@ theorem getConn_error_cls {s s' : State} {e : Exc} (hg : getConn s = (s', .error
       · simp [newConn] at hg
     · split at hg <;> simp [newConn] at hg
 
+/-- what `urlopen` raises before its `try:` -/
+theorem preflight_cls {rc : ReqCfg} {a : Attempt} {e : Exc} (h : preflight rc a = some e) :
+    okClsB rc.badTimeout e.cls = true := by
+  unfold preflight at h
+  split at h
+  · cases h; exact okClsB_of (by decide)
+  · split at h
+    · rename_i hb
+      cases h
+      simp [okClsB, hb, exc]
+    · cases h
+
+/-- what the wait between two attempts raises -/
+theorem waitExc_cls {ra : Bool} {w : WaitOut} {e : Exc} (h : waitExc ra w = some e) : okCls e.cls = true := by
+  cases w <;> cases ra <;> simp [waitExc] at h <;> subst h <;> decide
+
+theorem hop_badTimeout (rc : ReqCfg) : rc.hop.badTimeout = rc.badTimeout := rfl
+theorem seeOther_badTimeout (rc : ReqCfg) : rc.seeOther.badTimeout = rc.badTimeout := rfl
+
 /-- a whole `urlopen` call, whatever the script, the configuration and the retry budget -/
 theorem request_good (rid n : Nat) : ∀ (script : List Attempt) (s : State) (rc : ReqCfg) (retries : Retry),
-    Inv s → n ≤ s.resps.length → Good n s (request s rid rc retries script) := by
+    Inv s → n ≤ s.resps.length → Good n rc.badTimeout s (request s rid rc retries script) := by
   intro script
   induction script with
   | nil => intro s rc retries h _; exact ⟨h, (by intro e he; cases he), KeepN.refl _ _⟩
   | cons a rest ih =>
     intro s rc retries h hn
     have afterDiscard : ∀ (t : State) (x : Option Nat) (e1 : Exc), KeepN n s t → Inv (discard t x).1 → okCls e1.cls = true →
-        Good n s (match discard t x with
+        Good n rc.badTimeout s (match discard t x with
           | (s, some e') => (s, Result.raised e')
           | (s, none) => (s, Result.raised e1)) := by
       intro t x e1 kt pd ok1
@@ -1684,22 +1711,23 @@ theorem request_good (rid n : Nat) : ∀ (script : List Attempt) (s : State) (rc
       generalize discard t x = r at pd ex kd ⊢
       obtain ⟨s2, o⟩ := r
       cases o with
-      | some e' => exact ⟨pd, (by intro e he; cases he; exact ex rfl), kd⟩
-      | none => exact ⟨pd, (by intro e he; cases he; exact ok1), kd⟩
-    have afterDiscardRec : ∀ (t : State) (x : Option Nat) (rc' : ReqCfg) (rt : Retry), KeepN n s t → Inv (discard t x).1 →
-        Good n s (match discard t x with
+      | some e' => exact ⟨pd, (by intro e he; cases he; exact okClsB_of (ex rfl)), kd⟩
+      | none => exact ⟨pd, (by intro e he; cases he; exact okClsB_of ok1), kd⟩
+    have afterDiscardRec : ∀ (t : State) (x : Option Nat) (rc' : ReqCfg) (rt : Retry), rc'.badTimeout = rc.badTimeout →
+        KeepN n s t → Inv (discard t x).1 →
+        Good n rc.badTimeout s (match discard t x with
           | (s, some e'') => (s, Result.raised e'')
           | (s, none) => request s rid rc' rt rest) := by
-      intro t x rc' rt kt pd
+      intro t x rc' rt hbt kt pd
       have ex := @discard_exc_ok t x
       have kd := kt.trans ((discard_mono t x).keep n)
       generalize discard t x = r at pd ex kd ⊢
       obtain ⟨s2, o⟩ := r
       cases o with
-      | some e' => exact ⟨pd, (by intro e he; cases he; exact ex rfl), kd⟩
-      | none => exact Good.from kd (ih s2 rc' rt pd (Nat.le_trans hn kd.rlen))
+      | some e' => exact ⟨pd, (by intro e he; cases he; exact okClsB_of (ex rfl)), kd⟩
+      | none => exact Good.from kd (hbt ▸ ih s2 rc' rt pd (Nat.le_trans hn kd.rlen))
     have afterDrain : ∀ (t : State) (r : Nat) (e1 : Exc), KeepN n s t → Inv t → okCls e1.cls = true →
-        Good n s (match drainConn t r with
+        Good n rc.badTimeout s (match drainConn t r with
           | (s, some e) => (s, Result.raised e)
           | (s, none) => (s, Result.raised e1)) := by
       intro t r e1 kt pt ok1
@@ -1709,23 +1737,36 @@ theorem request_good (rid n : Nat) : ∀ (script : List Attempt) (s : State) (rc
       generalize drainConn t r = q at pd ex kd ⊢
       obtain ⟨s2, o⟩ := q
       cases o with
-      | some e' => exact ⟨pd, (by intro e he; cases he; exact ex rfl), kd⟩
-      | none => exact ⟨pd, (by intro e he; cases he; exact ok1), kd⟩
-    have afterDrainRec : ∀ (t : State) (r : Nat) (rc' : ReqCfg) (rt : Retry), KeepN n s t → Inv t →
-        Good n s (match drainConn t r with
+      | some e' => exact ⟨pd, (by intro e he; cases he; exact okClsB_of (ex rfl)), kd⟩
+      | none => exact ⟨pd, (by intro e he; cases he; exact okClsB_of ok1), kd⟩
+    -- drain, then the wait between the attempts (which may raise: the state is the drained one), then recurse
+    have afterDrainRec : ∀ (t : State) (r : Nat) (w : Option Exc) (rc' : ReqCfg) (rt : Retry), rc'.badTimeout = rc.badTimeout →
+        (∀ e, w = some e → okCls e.cls = true) → KeepN n s t → Inv t →
+        Good n rc.badTimeout s (match drainConn t r with
           | (s, some e) => (s, Result.raised e)
-          | (s, none) => request s rid rc' rt rest) := by
-      intro t r rc' rt kt pt
+          | (s, none) =>
+            match w with
+            | some e => (s, Result.raised e)
+            | none => request s rid rc' rt rest) := by
+      intro t r w rc' rt hbt hw kt pt
       have pd := (drainConn_pres [] t r).inv [] (by simp) pt
       have kd := kt.trans ((drainConn_pres [] t r).mono.keep n)
       have ex := @drainConn_exc_ok t r
       generalize drainConn t r = q at pd ex kd ⊢
       obtain ⟨s2, o⟩ := q
       cases o with
-      | some e' => exact ⟨pd, (by intro e he; cases he; exact ex rfl), kd⟩
-      | none => exact Good.from kd (ih s2 rc' rt pd (Nat.le_trans hn kd.rlen))
+      | some e' => exact ⟨pd, (by intro e he; cases he; exact okClsB_of (ex rfl)), kd⟩
+      | none =>
+        cases w with
+        | some e' => exact ⟨pd, (by intro e he; cases he; exact okClsB_of (hw e' rfl)), kd⟩
+        | none => exact Good.from kd (hbt ▸ ih s2 rc' rt pd (Nat.le_trans hn kd.rlen))
     have mrOk : okCls Gen.cU3MaxRetryError = true := by decide
     rw [request]
+    -- a failure before the `try:` (unrewindable body, invalid timeout) changes nothing
+    cases hpf : preflight rc a with
+    | some e0 => exact ⟨h, (by intro e he; cases he; exact preflight_cls hpf), KeepN.refl _ _⟩
+    | none =>
+    dsimp only
     have kg := getConn_keep s n
     generalize hg : getConn s = res at kg
     obtain ⟨s1, eg⟩ := res
@@ -1744,7 +1785,7 @@ theorem request_good (rid n : Nat) : ∀ (script : List Attempt) (s : State) (rc
       split
       · rename_i hh
         rw [hh] at tbl
-        exact ⟨h, (by intro e' he'; cases he'; exact tbl), KeepN.refl _ _⟩
+        exact ⟨h, (by intro e' he'; cases he'; exact okClsB_of tbl), KeepN.refl _ _⟩
       all_goals
         rename_i hh
         rw [hh] at tbl
@@ -1752,7 +1793,7 @@ theorem request_good (rid n : Nat) : ∀ (script : List Attempt) (s : State) (rc
         · have pd := discard_none_closed_inv h hcl
           first
             | exact afterDiscard _ _ _ (KeepN.refl _ _) pd tbl
-            | exact afterDiscardRec _ _ _ _ (KeepN.refl _ _) pd
+            | exact afterDiscardRec _ _ _ _ (hop_badTimeout rc) (KeepN.refl _ _) pd
         · rw [hcl, handleError_emptyPool] at hh
           cases hh
     | ok c =>
@@ -1774,7 +1815,7 @@ theorem request_good (rid n : Nat) : ∀ (script : List Attempt) (s : State) (rc
           exact absurd hh (mrCls_not_noCleanup hcls _ _ _)
         · rename_i hh; rw [hh] at tbl; exact afterDiscard _ _ _ k2 pd tbl
         · rename_i hh; rw [hh] at tbl; exact afterDiscard _ _ _ k2 pd tbl
-        · exact afterDiscardRec _ _ _ _ k2 pd
+        · exact afterDiscardRec _ _ _ _ (hop_badTimeout rc) k2 pd
       | resp r =>
         dsimp only
         have h2 := okr r rfl
@@ -1798,10 +1839,11 @@ theorem request_good (rid n : Nat) : ∀ (script : List Attempt) (s : State) (rc
         generalize (if rc.release = true then putConn s2 (some c) else (s2, none)) = q at lp lx lk ⊢
         obtain ⟨s3, o3⟩ := q
         cases o3 with
-        | some e => exact ⟨lp, (by intro e' he'; cases he'; exact lx e rfl), lk⟩
+        | some e => exact ⟨lp, (by intro e' he'; cases he'; exact okClsB_of (lx e rfl)), lk⟩
         | none =>
           dsimp only at lp lk ⊢
-          have fin : ∀ (loc ra : Bool) (status : Nat), Good n s
+          have fin : ∀ (loc ra : Bool) (status : Nat) (w : Option Exc), (∀ e, w = some e → okCls e.cls = true) →
+              Good n rc.badTimeout s
               (if (rc.redirect && isRedirect s3 r loc) = true then
                 match retries.incrementResp with
                 | none =>
@@ -1813,7 +1855,10 @@ theorem request_good (rid n : Nat) : ∀ (script : List Attempt) (s : State) (rc
                 | some retries' =>
                   match drainConn s3 r with
                   | (s, some e) => (s, Result.raised e)
-                  | (s, none) => request s rid (if (status == 303) = true then { rc with methodRetryable := true, isHead := false } else rc) retries' rest
+                  | (s, none) =>
+                    match w with
+                    | some e => (s, Result.raised e)
+                    | none => request s rid (if (status == 303) = true then rc.seeOther else rc.hop) retries' rest
               else if retries.isRetry rc.methodRetryable status ra = true then
                 match retries.incrementResp with
                 | none =>
@@ -1823,24 +1868,29 @@ theorem request_good (rid n : Nat) : ∀ (script : List Attempt) (s : State) (rc
                 | some retries' =>
                   match drainConn s3 r with
                   | (s, some e) => (s, Result.raised e)
-                  | (s, none) => request s rid rc retries' rest
+                  | (s, none) =>
+                    match w with
+                    | some e => (s, Result.raised e)
+                    | none => request s rid rc.hop retries' rest
               else (markReturned s3 r, Result.resp r)) := by
-            intro loc ra status
-            have mr : Good n s (markReturned s3 r, Result.resp r) :=
+            intro loc ra status w hw
+            have mr : Good n rc.badTimeout s (markReturned s3 r, Result.resp r) :=
               ⟨markReturned_inv r lp, (by intro e he; cases he),
                 lk.trans (markReturned_mono s3 r |>.keep n)⟩
+            have hbt' : (if (status == 303) = true then rc.seeOther else rc.hop).badTimeout = rc.badTimeout := by
+              split <;> rfl
             split
             · split
               · split
                 · exact afterDrain _ _ _ lk lp mrOk
                 · exact mr
-              · exact afterDrainRec _ _ _ _ lk lp
+              · exact afterDrainRec _ _ _ _ _ hbt' hw lk lp
             · split
               · split
                 · exact afterDrain _ _ _ lk lp mrOk
-                · exact afterDrainRec _ _ _ _ lk lp
+                · exact afterDrainRec _ _ _ _ _ (hop_badTimeout rc) hw lk lp
               · exact mr
-          exact fin _ _ _
+          exact fin _ _ _ _ (fun e he => waitExc_cls he)
 
 theorem request_inv (rid : Nat) (script : List Attempt) (s : State) (rc : ReqCfg) (retries : Retry) (h : Inv s) :
     Inv (request s rid rc retries script).1 := (request_good rid 0 script s rc retries h (Nat.zero_le _)).1
